@@ -24,6 +24,60 @@ CHECKS = {
  "C09": ("invariant + metamorphic runtime monitor: `$_` against every universe term (bindings unchanged), nested `$_` pairs vs reference, and insertion of `$V = $_` steps into unification sequences",
          "Top-level `$_` must succeed and leave the substitution set entry-wise unchanged under every prior; nested occurrences are compared with the reference; inserting a `$_` unification at any point of a sequence must not change later successes or values.",
          "trusts the reference unifier for nested wildcard positions", "DESIGN.md 5/C09"),
+ "C01": ("history + reference-model runtime monitor: answer sequence of next_solution()/solve_all() vs an independent depth-first SLD interpreter, over a complete enumeration of small program shapes plus seeded random stratified programs",
+         "The real engine is driven through its public search API on every program of a bounded shape space and on random programs with list patterns, aliasing, nested and/or, recursion, arithmetic, comparisons and list built-ins; the oracle compares number, order, multiplicity and value (up to renaming of unbound variables) of the answers with a reference interpreter written from the statement, and solve_all's strings with an independent formatter. Held on the executions observed; programs outside the generators' bounds are not covered.",
+         "trusts the reference interpreter in monitor/src/rinterp.rs; cases the statements leave open (occurs check, arithmetic on non-numbers, ...) are discarded before the engine runs and counted", "DESIGN.md 5/C01"),
+ "C02": ("history + reference-model runtime monitor: answers of programs with `!` at every body position vs a reference interpreter implementing the documented cut",
+         "Every small program shape with a cut at every position of conjunctions and disjunction arms (followed by succeeding and failing goals, with and without later clauses, called from conjunctions that backtrack into the cutting predicate) and random larger programs are executed; answers must equal the reference with the documented cut. The reference counts how often a cut ran with pending clauses / choice points / was followed by failure, and the check reports those counts.",
+         "trusts the reference interpreter's reading of the documented cut; cut inside not(...) is not generated", "DESIGN.md 5/C02"),
+ "C03": ("history + reference-model runtime monitor: answers of programs containing not(G) vs reference negation as failure",
+         "Programs whose bodies contain not(G) for G a call, conjunction, disjunction, unification or comparison, with the variables of G bound or unbound at the call and G having 0, 1 or many answers, are executed; the answer sequences (which expose any leaked binding of G and any second success of not) must equal the reference.",
+         "trusts the reference interpreter", "DESIGN.md 5/C03"),
+ "C04": ("history + reference-model runtime monitor over captured stdout: bytes written between consecutive next_solution() returns vs the reference's output events",
+         "fd 1 of the worker is redirected to a file; after every API call the new bytes are read, so the observed history is `output, answer, output, answer, ...`. It must equal, segment by segment, what the reference search writes for print / print_list / nl placed before, between and after backtracking goals, in disjunction arms, inside not and after cut.",
+         "formatting corners the statement leaves open (non-ground arguments, marker/argument count mismatch, floats without fraction) are out of domain", "DESIGN.md 5/C04"),
+ "C05": ("invariant monitor over call histories: after the first None / `No more.`, further requests on the same query must return None / `No more.` and write zero bytes",
+         "Every query of the C01-C04 corpora (not, cut, print, nested and/or) is driven to exhaustion and then asked again 3 (quick) / 5 (thorough) times through next_solution() and twice through solve(); stdout is captured around every request.",
+         "needs no reference model; queries that reach the answer cap before exhaustion are skipped and counted", "DESIGN.md 5/C05"),
+ "C11": ("metamorphic runtime monitor: the engine against itself on alpha-renamed programs (random names, the query's names, identical names in every clause, names that are prefixes of each other)",
+         "Each program of the corpus is executed as generated and under 4 (quick) / 8 (thorough) consistent renamings of its clause variables; answers (canonicalised) and captured output must be identical.",
+         "no reference model involved in the verdict", "DESIGN.md 5/C11"),
+ "C12": ("differential runtime monitor: add/subtract/multiply/divide evaluated by the engine vs a checked-i64 / f64 left fold, over a complete grid of argument lists x operations x presentations",
+         "Every argument list of length 1-2 (and a sub-grid of length 3) over 19 boundary numbers x 4 operations is evaluated through 5 presentations (constructor, through bound variable chains, function on the left, source text named, source text infix) and the result bound to the output variable is compared in type and value with the fold the statement defines; random lists extend the grid.",
+         "integer overflow and integer division by zero are out of domain as the statement says", "DESIGN.md 5/C12"),
+ "C13": ("differential runtime monitor: unify(F, T) and unify(T, F) for function terms F vs value-then-unify by the reference, over all function x operand-class x side combinations",
+         "9 function terms x 19 operand classes x both sides of `=`, plus random pairs, run as one-clause programs; the outcome must equal unifying the function's value with the other operand.",
+         "trusts the reference evaluation of the functions (C12/C17 check it separately)", "DESIGN.md 5/C13"),
+ "C14": ("differential runtime monitor: the five comparison predicates vs numeric / byte-wise string order over a complete operand grid, with a witness variable exposing success count and bindings",
+         "All ordered pairs of 29 operands (boundary ints, floats incl. -0.0, NaN and infinities produced at run time, atoms incl. unicode, unbound variable, list, complex term, `$_`) x 5 predicates x 6 presentations (named, variable chains, source text named and infix) plus random pairs; the clause binds a witness after the comparison so success, at-most-once and absence of bindings show in the answers.",
+         "trusts the reference comparison in monitor/src/rinterp.rs", "DESIGN.md 5/C14"),
+ "C15": ("invariant + differential runtime monitor: node-by-node well-formedness and element sequence of every list built by make_linked_list, slist!, parse_linked_list, recreate_variables, append, include, exclude",
+         "Every element sequence up to length 3 (4 in thorough) over a 14-term alphabet with list-valued, empty-list, variable and `$_` elements is pushed through each producer; every node must satisfy term != Nil, count = 1 + next.count, tail flag only on the last node, terminator exactly the empty node; the element sequence must be the one the statement prescribes; the built list must unify with an independently built one without bindings.",
+         "the layout rules are those of the documented parser output", "DESIGN.md 5/C15"),
+ "C16": ("differential runtime monitor: append vs the concatenation defined in the statement, over all pairs (and a grid of triples) of an element alphabet in five argument arrangements",
+         "append is run with atoms, numbers, complex terms, bound variables, flat / nested / empty lists and lists whose tail variable is bound (once or twice), with Out unbound, bound to the right list and bound to a wrong list; answers must equal the reference, at most one answer.",
+         "append with an unbound or wildcard input is out of domain", "DESIGN.md 5/C16"),
+ "C17": ("differential runtime monitor: count, include/exclude, functor and join vs per-statement reference implementations, enumerated argument grids plus random cases",
+         "count over element pairs incl. bound tails; include/exclude over element pairs x 6 filter patterns with the filter variable reported (so a leaked binding shows); functor over arities 0-4 x names x exact / prefix* / variable patterns in 4 forms; join over word / punctuation triples and lists with bound variables.",
+         "cases the statement leaves open (open lists, non-list arguments, join starting with punctuation) are out of domain", "DESIGN.md 5/C17"),
+ "C18": ("robustness monitor: every input string is handed to all 10 parser entry points under catch_unwind with a panic hook; worker death or lack of progress is isolated by the supervisor and re-run three times",
+         "All strings up to length 3 over the 12-character syntax alphabet, canonical texts, 1-4-edit mutations of them and random strings up to 160 characters; a panic is a violation keyed by (entry point, source file, panic kind); an abort, stack overflow or hang is reproduced in isolation before it is reported.",
+         "\"bounded time\" is decided as: returns within the per-case watchdog on inputs <= 160 characters", "DESIGN.md 5/C18"),
+ "C19": ("differential + round-trip runtime monitor: parse -> Display vs an independent canonical printer, then parse(Display) == value, over enumerated grammar derivations and random texts",
+         "All terms up to 3-4 nodes, all simple goals incl. every built-in and infix form, all bodies of <= 3 goals in and/or arrangements, facts / rules / queries of arity 0-3, plus random larger texts: the parser must accept, the printed form must equal the independently computed canonical text, re-parsing must give an equal value and printing must be idempotent.",
+         "trusts the independent printer in monitor/src/rt.rs; parenthesised groups, time(...), quoted atoms are outside the canonical grammar", "DESIGN.md 5/C19"),
+ "C20": ("metamorphic runtime monitor: the same term text parsed in 12 syntactic contexts must give equal terms or be rejected in all",
+         "Enumerated canonical terms plus signed numbers, numeric look-alikes and punctuation atoms, and random tokens, each parsed alone, as 1st/2nd complex argument, built-in argument, list element (two parsers), either side of `=`, left of `==`, either operand of an arithmetic infix and as query argument.",
+         "contexts whose surrounding syntax cannot hold the text are not generated", "DESIGN.md 5/C20"),
+ "C21": ("differential runtime monitor: load_kb_from_file on random legal renderings vs parse_rule per rule + add_rules",
+         "Generated programs are written to files with random line breaks after `:-` `,` `;` `=` (also inside argument lists), indentation, blank lines and `#` `%` `//` comments outside parentheses and brackets; the file must load and format_kb plus the Debug form of every predicate's rules must equal the rule-by-rule knowledge base.",
+         "only rules that parse_rule accepts are used (acceptance itself is C19's subject)", "DESIGN.md 5/C21"),
+ "C22": ("metamorphic runtime monitor over process histories: each step of a multi-query history vs the same (query, driver) run as the first action of a fresh process",
+         "One process per history: all ordered pairs over a 16-step alphabet (12 queries incl. not / cut / print / append and three whose search exceeds the 1 s limit; drivers next_solution to exhaustion, abandon after k answers, re-ask after exhaustion, solve x n, solve_all), all triples over a sub-alphabet and random longer histories; answers and captured output of every step must equal its fresh-process baseline.",
+         "slow searches are sized once per run on the idle machine; a query abandoned midway is never resumed after a later query was built", "DESIGN.md 5/C22"),
+ "C23": ("history + reference-model monitor with a monotonic clock: solve/solve_all strings vs the true answer sequence under the real timer thread",
+         "Fast generated queries must be complete and never report a timeout; slow searches sized at run time to exceed the limit many times over (answers first then a long silent search; not(...) over a search that succeeds only at its very end) must return a prefix of the true sequence, then the timeout message as last element, never before 1000 ms have elapsed.",
+         "only timing directions that are sound on a loaded machine are verdicts; a fast query that really took >= 1000 ms is inconclusive", "DESIGN.md 5/C23"),
 }
 
 PENDING = {}
